@@ -37,7 +37,8 @@ KS_FIELDS = ["seq", "n_start", "n_end", "n_tune", "n_warm", "n_trans", "n_adapt"
              "last_start_seq", "last_end_seq", "last_tune_seq", "last_warm_seq",
              "start_nth", "start_time", "start_tie", "start_type",
              "end_nth", "end_time", "end_tie",
-             "tune_nth", "tune_time", "tune_tie", "tune_hist_len", "tune_hist_digest", "warm_th_len"]
+             "tune_nth", "tune_time", "tune_tie", "tune_hist_len", "tune_hist_digest", "warm_th_len",
+             "start_dur", "start_thin", "end_dur", "end_thin", "end_type", "tune_dur", "tune_thin", "tune_type"]
 KEY_FIELDS = ["k_init", "k_start", "k_end", "k_tune", "k_warm"]
 
 
@@ -179,6 +180,8 @@ class ProbeKernel(TransitionMixin, TuningMixin):
         ks["start_time"] = jnp.int32(epoch.time)
         ks["start_tie"] = jnp.int32(epoch.time_in_epoch)
         ks["start_type"] = jnp.int32(epoch.config.type)
+        ks["start_dur"] = jnp.int32(epoch.config.duration)       # the epoch's own configuration, not that of an earlier epoch of the same type
+        ks["start_thin"] = jnp.int32(epoch.config.thinning)
         ks["k_start"] = _key_words(prng_key)
         return ks.raw
 
@@ -191,6 +194,9 @@ class ProbeKernel(TransitionMixin, TuningMixin):
         ks["end_nth"] = jnp.int32(epoch.nth_epoch)
         ks["end_time"] = jnp.int32(epoch.time)
         ks["end_tie"] = jnp.int32(epoch.time_in_epoch)
+        ks["end_dur"] = jnp.int32(epoch.config.duration)
+        ks["end_thin"] = jnp.int32(epoch.config.thinning)
+        ks["end_type"] = jnp.int32(epoch.config.type)
         ks["k_end"] = _key_words(prng_key)
         return ks.raw
 
@@ -203,6 +209,9 @@ class ProbeKernel(TransitionMixin, TuningMixin):
         ks["tune_nth"] = jnp.int32(epoch.nth_epoch)
         ks["tune_time"] = jnp.int32(epoch.time)
         ks["tune_tie"] = jnp.int32(epoch.time_in_epoch)
+        ks["tune_dur"] = jnp.int32(epoch.config.duration)
+        ks["tune_thin"] = jnp.int32(epoch.config.thinning)
+        ks["tune_type"] = jnp.int32(epoch.config.type)
         ks["k_tune"] = _key_words(prng_key)
         if history is None:
             ks["tune_hist_len"] = jnp.int32(-1)
@@ -534,7 +543,7 @@ def reference(spec):
                 tr["seq"] += 1
                 tr["n_start"] += 1
                 tr["last_start_seq"] = tr["seq"]
-                tr.update(start_nth=ei, start_time=time, start_tie=0, start_type=typ)
+                tr.update(start_nth=ei, start_time=time, start_tie=0, start_type=typ, start_dur=dur, start_thin=thin)
                 tr["events"].append(("start", ei))
             epoch_hist = {k: [] for k in tracked}
             for j in range(dur):
@@ -564,7 +573,7 @@ def reference(spec):
                 tr["seq"] += 1
                 tr["n_end"] += 1
                 tr["last_end_seq"] = tr["seq"]
-                tr.update(end_nth=ei, end_time=time, end_tie=dur)
+                tr.update(end_nth=ei, end_time=time, end_tie=dur, end_dur=dur, end_thin=thin, end_type=typ)
                 tr["events"].append(("end", ei))
             if typ in (1, 2):
                 n_tunings += 1
@@ -573,7 +582,7 @@ def reference(spec):
                     tr["n_tune"] += 1
                     tr["n_slow"] += 1 if typ == 2 else 0
                     tr["last_tune_seq"] = tr["seq"]
-                    tr.update(tune_nth=ei, tune_time=time, tune_tie=dur)
+                    tr.update(tune_nth=ei, tune_time=time, tune_tie=dur, tune_dur=dur, tune_thin=thin, tune_type=typ)
                     if any_hist:
                         keys = sorted(tracked)
                         n = len(epoch_hist[keys[0]])
